@@ -6,6 +6,9 @@ from .common import VERIF
 
 ALL = ["C%02d" % i for i in range(1, 21)]
 
+TOK_EXTRA = (" Leg S: the repository's own tokenizer / split / worker tests are run with a tracing pytest plugin (wrapping tokenize() from outside) "
+             "and every execution they make is judged by TLC with the same monitors. Legs T also drive ONE tokenizer object through several "
+             "streams (sequentially and with all generators requested up front), each run judged as a fresh run.")
 TOK_NOTE = ("Trusted: TLC/SANY, CommunityModules Json/IOUtils, CPython, the recorder/projection code in harness/tok.py. "
             "Frames are abstracted to (index, validity). Leg M is exhaustive only inside the tier grid "
             "(quick: all streams <= 7 frames x 288 tuples + an init-phase grid to 8 frames); beyond it the claim rests on "
@@ -33,17 +36,20 @@ CHECKS = {
         text="TLC proves C01 on the implementation-shaped Tokenizer spec for every parameter tuple x validity stream of the tier "
              "grid; every exported terminal behaviour is replayed through the real StreamTokenizer; seeded long runs of the real "
              "code (5 frame types, 2 validator kinds, 3 delivery modes) are judged by TLC with the same C01 formula on a free "
-             "observation trace spec. Bounded-exhaustive design proof + conformance in both directions.",
+             "observation trace spec. Bounded-exhaustive design proof + conformance in both directions." + TOK_EXTRA,
         ref="DESIGN.md 5/C01, 3.2, 4.4", technique="TLA+ model checking (TLC) + spec->code behaviour replay + code->spec trace validation",
         note=TOK_NOTE),
     "C02": dict(
         text="As C01 with formula C02 (length bounds, remainder rule); the constructor accept/reject decision is compared with "
-             "TokCore!Accepted on the whole integer grid -1..5 (72 030 tuples).",
+             "TokCore!Accepted on the whole integer grid -1..5 (72 030 tuples). Thorough tier: both length bounds are proved for ALL parameter "
+             "values and stream lengths by the inductive invariant of TokenizerInt (Apalache); TLC checks AbsInv on the concrete registers.",
         ref="DESIGN.md 5/C02", technique="TLA+ model checking (TLC) + behaviour replay + trace validation; constructor decision table",
         note=TOK_NOTE),
     "C03": dict(
         text="As C01 with formula C03 (no run of more than max_continuous_silence invalid frames inside a chain of contiguous "
-             "tokens, first/last frame validity).",
+             "tokens, first/last frame validity). Thorough tier: the run bound is also proved for ALL parameter values and stream lengths "
+             "by an inductive invariant of the integer abstraction TokenizerInt (Apalache, 3 obligations); TLC checks the same invariant on "
+             "the concrete registers (AbsInv).",
         ref="DESIGN.md 5/C03", technique="TLA+ model checking (TLC) + behaviour replay + trace validation", note=TOK_NOTE),
     "C04": dict(
         text="TLC proves that the automaton refines the declarative greedy segmentation Seg (written without reference to the "
@@ -106,7 +112,9 @@ CHECKS = {
              "controller that replaces auditok.workers.Queue and Worker.start/join/is_alive: TLC -simulate behaviours are followed step "
              "by step (leg R) and seeded schedule policies explore larger inputs (leg T); every run is judged by TLC on WorkersObs "
              "(monitors on the observed end state: ids 1..n in order for every observer, detections = segmentation of the blocks read, "
-             "all threads ended) and WorkersTrace (step conformance).",
+             "all threads ended) and WorkersTrace (step conformance). Leg X enumerates depth-first EVERY schedule of tiny pipelines on the real "
+             "threads (complete for 1 window / 1 observer: 256 schedules); observers include PrintWorker, RegionSaverWorker, PlayerWorker (mock "
+             "player), CommandLineWorker (recorded os.system); the command-line main loop itself runs under the controller.",
         ref="DESIGN.md 5/C12, 3.3, 4.3", technique="TLA+ model checking incl. liveness (TLC) + schedule replay into real threads + trace validation",
         note=WORKERS_NOTE),
     "C13": dict(
@@ -119,7 +127,8 @@ CHECKS = {
         text="The stop request (stop_all) is enabled in every running state of the model (exhaustive over the crash point and all "
              "subsequent interleavings): C14Safe (detections = segmentation of exactly the blocks read, as if the stream had ended there), "
              "termination. On the real threads the stop is injected at EVERY step index of base schedules (fault enumeration) plus "
-             "random points; monitors: observers' logs, saved file = blocks read and valid wav, all threads ended.",
+             "random points; monitors: observers' logs, saved file = blocks read and valid wav, all threads ended. The Ctrl-C path of "
+             "cmdline.main is exercised under the controller: its 1 s poll is a scheduling point at which KeyboardInterrupt is delivered.",
         ref="DESIGN.md 5/C14", technique="TLA+ model checking incl. liveness (TLC) + systematic stop injection into controlled real threads + trace validation",
         note=WORKERS_NOTE, cat="model_checking"),
     "C15": dict(
